@@ -101,7 +101,8 @@ CLAIMED = {
             "Trusted: Lean kernel; hand-written machine model tied by correspondence; setjmp/longjmp and the compiler are modelled "
             "(a throw transfers control to the frame ctx->last points to); the AST-to-C printer in tools/props/c19.py.",
             "DESIGN.md §5 C19"),
-    "C10": ("Lean 4 proofs (generic polynomial-quotient layer = R[X]/(X^k - c) via evaluation at any root, incl. Mathlib's AdjoinRoot; every "
+    "C10": ("Translator (45 straight-line tower functions of src/fpx regenerated into Lean on every run and proved equal to the model "
+            "definitions) + Lean 4 proofs (generic polynomial-quotient layer = R[X]/(X^k - c) via evaluation at any root, incl. Mathlib's AdjoinRoot; every "
             "multiplication / squaring / inversion formula of src/fpx = product of the quotient ring over an abstract commutative ring with the "
             "non-residue as parameter; sparse, Granger-Scott, Karabina forms under their algebraic preconditions; the stacked fp12 model as "
             "executed = ring operations after evaluation) + correspondence of every public fpN_* function by name against the generic "
@@ -118,14 +119,18 @@ CLAIMED = {
             "polynomials; square-and-multiply = power. PARTIAL / counter-theorem: the exceptional branch (g2 = 0) of fp12_back_cyc does not "
             "decompress (finding C10-F8, reproduced on the library with constructed operands). Class C (compared with the specification "
             "only): digit-level lazy reduction, Frobenius through the constant tables, NAF / sparse / simultaneous cyclotomic "
-            "exponentiations, square roots, inv_sim, pck/upk, serialisation, the compressed forms above degree 12. Tie: ~4100 lines per "
-            "quick run (every function variant by name, all alias patterns, zero / one / subfield / sparse / maximal / cyclotomic / order-r "
-            "/ g2 = 0 operands, all Frobenius powers, exponent classes); thorough adds ~120000 lines incl. FP_PRIME=381.",
-            "Trusted: Lean kernel; hand-transcribed model (not translator-generated) tied by whole-function correspondence; tower constants "
+            "exponentiations (the signed-digit loop and Montgomery's simultaneous inversion are proved as loops), square roots, pck/upk, "
+            "serialisation, the compressed forms above degree 12. Tie: ~6300 lines per quick run (every function variant by name, all alias patterns, zero / one / subfield / sparse / maximal / cyclotomic / order-r "
+            "/ g2 = 0 operands, all Frobenius powers, exponent classes); thorough: ~136000 lines incl. FP_PRIME=381 and the curve families of embedding degree 16/18/24/48/54 (FP_PRIME = 330, 354, 315, "
+            "575, 569) with their full towers.",
+            "Trusted: Lean kernel; tools/translate_fpx.py (accepted fragment listed there; anything else is a translation failure); the fp2 / "
+            "fp3 functions, fp12_mul_dxs and the loops are hand-transcribed and tied by whole-function correspondence only; a "
+            "value-preserving rewrite of a translated C function breaks its `rfl` tie and is reported as a broken obligation; tower constants "
             "(qnr, cnr, xi, twist type, order) read from the running library and their defining properties checked by the driver; the "
             "specification's Frobenius uses X^p per level (computed from the definition) plus the proved homomorphism property, cross-checked "
             "against a^p on sampled lines; towers above degree 12 are exercised only for their prime-independent ring arithmetic on the "
-            "256-bit primes (their Frobenius constants belong to other field sizes: not built yet); known findings C10-F1..F8.",
+            "256-bit primes (their Frobenius constants belong to the other field sizes, covered in the thorough tier); known findings "
+            "C10-F1..F10.",
             "DESIGN.md §5 (C10, to be added by the integrator); lean/RelicVerif/Props/C10.lean header"),
     "C18": ("Translator (selectable field and curve tables extracted from relic_fp_param.c / relic_ep_param.c on every run) + Lean 4 kernel "
             "evaluation of the consistency predicates on the extracted literals + Pratt certificates checked in Lean (soundness proved with "
